@@ -10,6 +10,7 @@ from ..tags import T
 
 ID = "C12"
 LEVEL = "translation_validation"
+TECHNIQUE = "runtime monitoring (translation validation): four-way evaluation of expressions on a full integer grid; exhaustive range grid"
 RULE = (
     "seeded random expression / predicate trees over the portable operator set (references, integer literals, "
     "negation, + - *, six comparisons, AND/OR/NOT of arity 0-3 built by factory and by constructor, membership in "
